@@ -41,7 +41,8 @@ def floors(m, tier):
             "types without getter": (c.get("all_no_getter", 0), u),
             "universes with an entity whose sidecar name would be too long": (c.get("universes_with_a_long_name", 0), u // 8),
             "GetFromAll(non-default config) comparisons (second data configuration)": (c.get("all_calls_non_default_config", 0), u * k // 40),
-            "get_one/get_data/get_attr": (c.get("single_calls", 0), u * 5)}
+            "get_one/get_data/get_attr": (c.get("single_calls", 0), u * 5),
+            "get_data with a string / uri argument": (c.get("get_data_string_argument", 0), u * 3)}
 
 
 def run(snap, tier, seed, t0, replay):
@@ -144,6 +145,14 @@ def check_get(rec, lab, conf, store, c, s, attributes, encname, case):
             d = dict(g.get_data(x, sid_encode=ENC[encname], **kw))
             if d != r:
                 rec.violation("get_data_differs", dict(cs, sid=str(x)), "%r vs %r" % (d, r))
+            # the same Sid given as its string / its uri: the record of that Sid all the same (the encoder always gets the Sid)
+            for form, arg in (("string", str(x)), ("uri", x.uri)):
+                if form == "string" and Sid(str(x)) != x:
+                    continue
+                d2 = dict(g.get_data(arg, sid_encode=ENC[encname], **kw))
+                rec.count("get_data_string_argument")
+                if d2 != r:
+                    rec.violation("get_data_differs", dict(cs, sid=str(x), argument=form), "%r vs %r" % (d2, r))
             full = dict(g.get_data(x))
             for k in KEYS + ["sid"]:
                 if g.get_attr(x, k) != full.get(k):
